@@ -1343,9 +1343,16 @@ class DocTest:
                             new_line = ','.join(tbparts)
 
                             # failed_ctx = '>>> ' + self.failed_part.exec_lines[tb_lineno - 1]
-                            failed_ctx = self.failed_part.orig_lines[tb_lineno - 1]
-                            extra = '    ' + failed_ctx
-                            line = (new_line + extra + '\n')
+                            # The frame may belong to code defined by an
+                            # earlier part, whose line numbers can exceed
+                            # the size of the failing part.
+                            orig_lines = self.failed_part.orig_lines or []
+                            if 0 < tb_lineno <= len(orig_lines):
+                                failed_ctx = orig_lines[tb_lineno - 1]
+                                extra = '    ' + failed_ctx
+                                line = (new_line + extra + '\n')
+                            else:
+                                line = new_line
 
                         # m = '(t{})'.format(i)
                         # line = m + line.replace('\n', '\n' + m)
